@@ -207,11 +207,27 @@ pub enum Guarded<T> {
     Panicked(String, String),
 }
 
+/// Heartbeats for the watchdog: one counter per worker, bumped on entry to and exit from every call
+/// into the library.  A hang is a *single library call* that does not return for WATCHDOG_SECS of
+/// wall time; a long run made of many short calls (a big message with all its mutants, on a loaded
+/// machine) is not.
+pub static BEATS: [AtomicU64; 64] = [const { AtomicU64::new(0) }; 64];
+thread_local! {
+    pub static WORKER: Cell<usize> = Cell::new(63);
+}
+#[inline]
+pub fn beat() {
+    let w = WORKER.with(|c| c.get());
+    BEATS[w].fetch_add(1, Ordering::Relaxed);
+}
+
 /// Run `f` (a call into the library under test) catching panics.  A panic whose location is in
 /// harness code is re-raised (it is a harness bug, not a finding).
 pub fn guard<T>(f: impl FnOnce() -> T) -> Guarded<T> {
     IN_LIB.with(|c| c.set(c.get() + 1));
+    beat();
     let r = catch_unwind(AssertUnwindSafe(f));
+    beat();
     IN_LIB.with(|c| c.set(c.get() - 1));
     match r {
         Ok(v) => Guarded::Ok(v),
@@ -391,6 +407,7 @@ pub fn run_batch(f: ScenarioFn, cfg: &Cfg, seed: u64, first_run: u64, runs: u64,
                         herr: vec![],
                         done: 0,
                     };
+                    WORKER.with(|c| c.set(w.min(62)));
                     loop {
                         let i = next.fetch_add(1, Ordering::SeqCst);
                         if i >= end || i > stop_at.load(Ordering::SeqCst) {
@@ -456,7 +473,11 @@ pub fn run_batch(f: ScenarioFn, cfg: &Cfg, seed: u64, first_run: u64, runs: u64,
                 })
                 .expect("spawn worker");
         }
-        // watchdog on this (main) thread
+        // watchdog on this (main) thread: a worker that is inside a run and whose heartbeat (bumped
+        // around every library call) has not moved for WATCHDOG_SECS is hung inside one call; a run
+        // that keeps making calls is given RUN_CAP_SECS in all (harness loops that never call the
+        // library are a harness error, not a finding, but must not spin for ever either)
+        let mut last_beat: Vec<(u64, u64)> = (0..threads).map(|w| (BEATS[w.min(62)].load(Ordering::Relaxed), 0u64)).collect();
         loop {
             if finished.load(Ordering::SeqCst) as usize == threads {
                 break;
@@ -465,7 +486,15 @@ pub fn run_batch(f: ScenarioFn, cfg: &Cfg, seed: u64, first_run: u64, runs: u64,
             let now = t0.elapsed().as_secs() + 1;
             for w in 0..threads {
                 let st = started[w].load(Ordering::SeqCst);
-                if st != 0 && now > st + crate::WATCHDOG_SECS {
+                if st == 0 {
+                    last_beat[w].1 = now;
+                    continue;
+                }
+                let b = BEATS[w.min(62)].load(Ordering::Relaxed);
+                if b != last_beat[w].0 || last_beat[w].1 < st {
+                    last_beat[w] = (b, now.max(st));
+                }
+                if now > last_beat[w].1 + crate::WATCHDOG_SECS || now > st + crate::RUN_CAP_SECS {
                     let run = started_run[w].load(Ordering::SeqCst);
                     crate::report_hang(cfg, seed, run);
                 }
